@@ -175,6 +175,38 @@ fn check_program(ast: &Ast, vars: &[(&'static str, RV)], ci: usize, st: &mut Sta
             },
         }
     }
+    // a context that can be passed to the mutable entry points but has no variable storage (the trait's own
+    // set_value): every assignment fails there with ContextNotMutable, and nothing after it runs
+    {
+        let mut rn = ref_context(vars);
+        let nref = rn.eval(ast, Mode::NoStorage);
+        let log_n: Log = Arc::new(Mutex::new(Vec::new()));
+        let mut ns = super::c11::NoStore { inner: real_context(vars, &log_n) };
+        match guarded(|| tree.eval_with_context_mut(&mut ns)) {
+            Err(p) => {
+                st.violation(mk("panic", format!("context without storage: panic at {}: {}", p.location, p.message)));
+                return;
+            },
+            Ok(r) => {
+                st.evaluations += 1;
+                if !rn.unclaimed {
+                    let got_log = log_keys(&log_n.lock().unwrap());
+                    if !result_matches(&nref, &r) || got_log != log_keys(&rn.log) {
+                        st.violation(Violation {
+                            property: ID,
+                            kind: "no-storage-context-order-or-calls-mismatch".into(),
+                            input: json!({"axis": "hashmap-no-storage", "source": src, "context": ci}),
+                            expected: format!("eval_with_context_mut on a context without variable storage: {} / call log {:?}", describe(&nref), log_keys(&rn.log)),
+                            actual: format!("{} / call log {:?}", res_dbg(&r), got_log),
+                            test: test_wrap("c08_replay", &ctx_test_src(vars, &src, &expected)),
+                        });
+                        return;
+                    }
+                    st.count("no-storage-context-runs");
+                }
+            },
+        }
+    }
     // the context-free tree-level forms (no user functions there: only for programs without calls, in the
     // context without variables): the result of evaluation in a fresh mutable context
     if ci == 0 && rc.log.is_empty() && !src.contains("typeof") && !src.contains("r (") && !src.contains("s (") {
@@ -749,7 +781,7 @@ pub fn run(cfg: &Cfg) -> Report {
     Report {
         property: ID,
         level: "model_checking",
-        rule: format!("axis 1: every program with <= {n_hash} operator nodes over {{x = e, y = e, x += e, x &&= e, r(e), s(e), typeof(e) (a failing user function that shadows a total builtin), -e, e + (missing operand), e + e, e && e, e || e, e / e, e < e, e == e (the two comparisons up to 2 operator nodes in the quick tier), (e, e), (e; e)}} and leaves {{1, 0, true, false, x, unbound u, (), 2.5, \" s \", 1/0, true+1}} (the float and the string up to 2 operator nodes in the quick tier) x 4 initial contexts (x unbound / int / boolean / empty tuple; the fourth up to 2 operator nodes in the quick tier) on the real HashMapContext with recording functions, each program through eval_with_context_mut, through the shared-context walker (result and call log against the reference in read-only mode) and, if it has effects, through all 7 typed mutable views (same final variables and call log: evaluated exactly once), and call-free programs through the context-free Node::eval / eval_int / eval_boolean / eval_empty / eval_float / eval_string (= a fresh mutable context); axis 2: the same programs (<= {n_script2} operator nodes with <= 2 deviations, <= {n_script1} with <= 1) against a scripted Context whose i-th answer (get_value / call_function / set_value) deviates from the default as chosen by a deviation-bounded depth-first exploration; oracle: reference interpreter driven by the same script (result, final variables, ordered call log with arguments, ordered sequence of context interactions). Plus a user function (under its own name and under the names of two builtins) failing with each of 11 error kinds the library itself produces, in 10 call shapes on both walkers: called exactly once, its error returned unchanged, nothing evaluated after it. Plus 405 assignments whose left operand is a computed expression (9 left operands x 5 right operands x 9 assignment operators: left operand's calls, then the right operand's, first failure wins; the meaning of the assignment itself is not claimed). Plus scaling families: chains, tuples, unparenthesised chains of tuples in four separator patterns, sums, op-assign sequences and nested arguments of n recording calls for every n in 1..20 and up to 129 (quick) / 1..40 and up to 400 (thorough) with the failing call at every position (chosen positions above 20). States = (program, context) pairs explored on axis 2, transitions = scripted executions. Non-trivial = failing after effects, or >= 2 logged calls, or a deviating script; each (program, context, script) triple is enumerated exactly once, so the counter counts distinct cases"),
+        rule: format!("axis 1: every program with <= {n_hash} operator nodes over {{x = e, y = e, x += e, x &&= e, r(e), s(e), typeof(e) (a failing user function that shadows a total builtin), -e, e + (missing operand), e + e, e && e, e || e, e / e, e < e, e == e (the two comparisons up to 2 operator nodes in the quick tier), (e, e), (e; e)}} and leaves {{1, 0, true, false, x, unbound u, (), 2.5, \" s \", 1/0, true+1}} (the float and the string up to 2 operator nodes in the quick tier) x 4 initial contexts (x unbound / int / boolean / empty tuple; the fourth up to 2 operator nodes in the quick tier) on the real HashMapContext with recording functions, each program through eval_with_context_mut, through the shared-context walker (result and call log against the reference in read-only mode), through the mutable walker on a context without variable storage (every assignment fails with ContextNotMutable, nothing after it runs) and, if it has effects, through all 7 typed mutable views (same final variables and call log: evaluated exactly once), and call-free programs through the context-free Node::eval / eval_int / eval_boolean / eval_empty / eval_float / eval_string (= a fresh mutable context); axis 2: the same programs (<= {n_script2} operator nodes with <= 2 deviations, <= {n_script1} with <= 1) against a scripted Context whose i-th answer (get_value / call_function / set_value) deviates from the default as chosen by a deviation-bounded depth-first exploration; oracle: reference interpreter driven by the same script (result, final variables, ordered call log with arguments, ordered sequence of context interactions). Plus a user function (under its own name and under the names of two builtins) failing with each of 11 error kinds the library itself produces, in 10 call shapes on both walkers: called exactly once, its error returned unchanged, nothing evaluated after it. Plus 405 assignments whose left operand is a computed expression (9 left operands x 5 right operands x 9 assignment operators: left operand's calls, then the right operand's, first failure wins; the meaning of the assignment itself is not claimed). Plus scaling families: chains, tuples, unparenthesised chains of tuples in four separator patterns, sums, op-assign sequences and nested arguments of n recording calls for every n in 1..20 and up to 129 (quick) / 1..40 and up to 400 (thorough) with the failing call at every position (chosen positions above 20). States = (program, context) pairs explored on axis 2, transitions = scripted executions. Non-trivial = failing after effects, or >= 2 logged calls, or a deviating script; each (program, context, script) triple is enumerated exactly once, so the counter counts distinct cases"),
         nontrivial_set: "counter:nontrivial-distinct",
         exhaustive: true,
         bound_completed: format!("programs of {n_hash} operator nodes; 2 deviations up to {n_script2} nodes, 1 deviation up to {n_script1}"),
